@@ -9,7 +9,7 @@ using namespace rkcommon::utility;
 #ifndef SMAX
 #define SMAX 2
 #endif
-struct Capture { int open, closed, nprintf; const char *fmt0; uint32_t a0, a1; const char *fmt1; uint8_t data[128]; uint64_t ndata; int fail_open; };
+struct Capture { int open, closed, nprintf; const char *fmt0; uint32_t a0, a1; const char *fmt1; uint8_t data[192]; uint64_t ndata; int fail_open; };
 extern "C" Capture *vp_file(void);
 
 #ifdef VP_NATIVE_BUILD
@@ -26,7 +26,7 @@ static void collect(const char *fmt, int w, int h)
   bool hdr_ok = n >= (size_t)hl && memcmp(all, g_hdr, hl) == 0;
   g_cap.fmt0 = hdr_ok ? fmt : "BAD"; g_cap.a0 = w; g_cap.a1 = h;
   g_cap.fmt1 = (n > (size_t)hl && all[n - 1] == '\n') ? "\n" : "BAD";
-  g_cap.ndata = hdr_ok ? n - hl - 1 : 0; memcpy(g_cap.data, all + hl, g_cap.ndata > 128 ? 128 : g_cap.ndata);
+  g_cap.ndata = hdr_ok ? n - hl - 1 : 0; memcpy(g_cap.data, all + hl, g_cap.ndata > 192 ? 192 : g_cap.ndata);
 }
 #include <unistd.h>
 #else
